@@ -38,6 +38,10 @@ def fresh(prefix="v", sort=None):
     return Const(f"{prefix}!{next(_ctr)}", Val if sort is None else sort)
 
 
+def fresh_name(prefix="f"):
+    return f"{prefix}!{next(_ctr)}"
+
+
 def fresh_int(prefix="n"):
     return Const(f"{prefix}!{next(_ctr)}", IntSort())
 
